@@ -138,7 +138,11 @@ func Arr(it stackitem.Item) []stackitem.Item {
 	}
 	switch it.(type) {
 	case *stackitem.Array, *stackitem.Struct:
-		return it.Value().([]stackitem.Item)
+		v := it.Value().([]stackitem.Item)
+		if v == nil {
+			v = []stackitem.Item{}
+		}
+		return v
 	}
 	return nil
 }
